@@ -5,7 +5,6 @@
 //! are logged. Part B ("enc" / "skr" / "gt" events): strings realising one row of the flag-bit
 //! table are pushed through every parser; the facts about the coordinate come from raw blst
 //! calls (oracle), never from chia-bls.
-use crate::sx::sha256;
 use crate::util::*;
 use blst::*;
 use chia_bls::{
@@ -246,18 +245,39 @@ fn script_event(ops: &[Op], mc: Vec<usize>, src: &str, r: &mut StdRng) -> Value 
         r.fill(&mut b);
         hid.insert(h.to_string(), b);
     }
-    for m in ["m1", "m2"] {
-        let n = r.random_range(0..40usize);
-        msg.insert(m.to_string(), rand_bytes(r, n));
+    // distinct message tokens are distinct byte strings (m1 may be empty, m2 never is)
+    let n = r.random_range(0..40usize);
+    msg.insert("m1".to_string(), rand_bytes(r, n));
+    let mut m2 = vec![0x6du8, 0x32];
+    let n = r.random_range(0..40usize);
+    m2.extend(rand_bytes(r, n));
+    if m2 == msg["m1"] {
+        m2.push(0);
     }
-    let mut runs = Vec::new();
+    msg.insert("m2".to_string(), m2);
     // two independent seed sets: a difference predicted by the algebra must show in at least one
+    let mut seed_sets = Vec::new();
     for _ in 0..2 {
         let mut seeds = HashMap::new();
         for s in ["s1", "s2", "s3"] {
             let n = if r.random_range(0..4u32) == 0 { r.random_range(32..64usize) } else { 32 };
             seeds.insert(s.to_string(), rand_bytes(r, n));
         }
+        seed_sets.push(seeds);
+    }
+    script_event_with(ops, mc, src, hid, msg, seed_sets)
+}
+
+fn script_event_with(
+    ops: &[Op],
+    mc: Vec<usize>,
+    src: &str,
+    hid: HashMap<String, [u8; 32]>,
+    msg: HashMap<String, Vec<u8>>,
+    seed_sets: Vec<HashMap<String, Vec<u8>>>,
+) -> Value {
+    let mut runs = Vec::new();
+    for seeds in seed_sets {
         let ctx = Ctx { seeds, hid: hid.clone(), msg: msg.clone() };
         runs.push(run_script(ops, &ctx));
     }
@@ -269,6 +289,45 @@ fn script_event(ops: &[Op], mc: Vec<usize>, src: &str, r: &mut StdRng) -> Value 
         "msg": {"m1": jbytes(&msg["m1"]), "m2": jbytes(&msg["m2"])},
         "runs": runs,
     })
+}
+
+/// re-execute a recorded event with exactly its logged inputs
+fn replay_event(e: &Value) -> Option<Value> {
+    match e["k"].as_str().unwrap_or("") {
+        "script" => {
+            let ops: Vec<Op> = e["ops"].as_array()?.iter().map(|o| Op {
+                op: o["op"].as_str().unwrap_or("").to_string(),
+                a: o["a"].as_u64().unwrap_or(0) as usize,
+                b: o["b"].as_u64().unwrap_or(0) as usize,
+                x: o["x"].as_str().unwrap_or("").to_string(),
+                n: from_jbytes(&o["n"]),
+                n2: from_jbytes(&o["n2"]),
+            }).collect();
+            let mc = e["mc"].as_array().map(|a| a.iter().map(|x| x.as_u64().unwrap_or(0) as usize).collect()).unwrap_or_default();
+            let mut hid = HashMap::new();
+            for h in ["H1", "H2"] {
+                let b: [u8; 32] = from_jbytes(&e["hid"][h]).try_into().ok()?;
+                hid.insert(h.to_string(), b);
+            }
+            let mut msg = HashMap::new();
+            for m in ["m1", "m2"] {
+                msg.insert(m.to_string(), from_jbytes(&e["msg"][m]));
+            }
+            let mut sets = Vec::new();
+            for run in e["runs"].as_array()? {
+                let mut seeds = HashMap::new();
+                for (k, v) in run["seeds"].as_object()? {
+                    seeds.insert(k.clone(), from_jbytes(v));
+                }
+                sets.push(seeds);
+            }
+            Some(script_event_with(&ops, mc, "replay", hid, msg, sets))
+        }
+        "enc" => Some(enc_event(e["kind"].as_str()?, &from_jbytes(&e["b"]), &e["row"], "replay")),
+        "skr" => Some(skr_event(&from_jbytes(&e["b"]).try_into().ok()?, "replay")),
+        "gt" => Some(gt_event(&from_jbytes(&e["b"]).try_into().ok()?, "replay")),
+        _ => None,
+    }
 }
 
 fn case_terms(c: &Value, r: &mut StdRng) -> Value {
@@ -446,8 +505,27 @@ fn on_curve_bn(kind: &str, b: &[u8]) -> Option<bool> {
     }
 }
 
-/// oracle facts about the coordinate part of a string, from raw blst: (on curve, in subgroup)
+/// the coordinate part with every 48-byte field element reduced modulo p; .1 = all were below p already
+fn reduced(b: &[u8]) -> (Vec<u8>, bool) {
+    let p = p_mod();
+    let mut m = b.to_vec();
+    m[0] &= 0x1f;
+    let mut below = true;
+    for k in 0..(m.len() / 48) {
+        let v = BigUint::from_bytes_be(&m[48 * k..48 * (k + 1)]);
+        if v >= p {
+            below = false;
+            m[48 * k..48 * (k + 1)].copy_from_slice(&fe_bytes(&(v % &p)));
+        }
+    }
+    (m, below)
+}
+
+/// oracle facts about the coordinate x mod p of a string (flags ignored), from raw blst: (on curve, in subgroup).
+/// Whether the coordinate is written canonically (x < p) is decided by the specification, not here.
 fn oracle(kind: &str, b: &[u8]) -> (bool, bool) {
+    let (b, _) = reduced(b);
+    let b = b.as_slice();
     let mut probe = b.to_vec();
     probe[0] = (probe[0] & 0x1f) | 0x80;
     let (ret, oc, ing) = unsafe {
@@ -561,7 +639,7 @@ fn classify(kind: &str, b: &[u8]) -> &'static str {
     if m.iter().all(|x| *x == 0) {
         return "zero";
     }
-    if on_curve_bn(kind, b).is_none() {
+    if !reduced(b).1 {
         return "gep";
     }
     let (oc, ing) = oracle(kind, b);
@@ -600,7 +678,7 @@ fn build_pools(r: &mut StdRng, per_class: usize) -> Pools {
     for kind in ["g1", "g2"] {
         let len = if kind == "g1" { 48 } else { 96 };
         let mut m: HashMap<&'static str, Vec<Vec<u8>>> = HashMap::new();
-        let mut put = |m: &mut HashMap<&'static str, Vec<Vec<u8>>>, b: Vec<u8>, cap: usize| {
+        let put = |m: &mut HashMap<&'static str, Vec<Vec<u8>>>, b: Vec<u8>, cap: usize| {
             let mut c = b.clone();
             c[0] &= 0x1f;
             let cl = classify(kind, &c);
@@ -665,6 +743,23 @@ fn build_pools(r: &mut StdRng, per_class: usize) -> Pools {
                 put(&mut m, w, 8 * per_class);
             }
         }
+        // more aliases x + p of subgroup points (x + p fits 381 bits for about a quarter of all x)
+        let mut found = 0;
+        for n in 0..400u32 {
+            if found >= 2 * per_class.max(1) {
+                break;
+            }
+            let sk = SecretKey::from_seed(&rand_bytes(r, 32));
+            let mut w = if kind == "g1" { sk.public_key().to_bytes().to_vec() } else { sign(&sk, n.to_be_bytes()).to_bytes().to_vec() };
+            w[0] &= 0x1f;
+            let comp = if kind == "g1" || n % 2 == 0 { 0..48 } else { 48..96 };
+            let alias = BigUint::from_bytes_be(&w[comp.clone()]) + &p;
+            if alias.bits() <= 381 {
+                w[comp].copy_from_slice(&fe_bytes(&alias));
+                put(&mut m, w, 64 * per_class);
+                found += 1;
+            }
+        }
         // random coordinates below p: on the curve (then almost surely outside the subgroup) or not
         let mut tries = 0;
         while (m.get("offsub").map_or(0, Vec::len) < per_class || m.get("offcurve").map_or(0, Vec::len) < per_class) && tries < 4000 {
@@ -724,7 +819,9 @@ pub fn record(args: &Args) {
                     let m = if kind == "g1" { &pl.g1 } else { &pl.g2 };
                     let empty = Vec::new();
                     let coords = m.get(xc).unwrap_or(&empty);
-                    for co in coords.iter().take(per_class.max(1) * 2) {
+                    // a spread of the pool of this class (pools are filled from several sources in turn)
+                    let want = (per_class.max(1) * 2).min(coords.len());
+                    for co in (0..want).map(|j| &coords[j * coords.len() / want]) {
                         let b = with_flags(co, row["c"].as_u64().unwrap_or(0), row["i"].as_u64().unwrap_or(0), row["s"].as_u64().unwrap_or(0));
                         out.emit(&enc_event(kind, &b, row, "mc"));
                     }
@@ -734,6 +831,14 @@ pub fn record(args: &Args) {
                     out.emit(&skr_event(&b, "mc"));
                 }
                 _ => {}
+            }
+        }
+    }
+    // recorded events of an earlier run (bin/check --replay)
+    if let Some(f) = args.get("replay") {
+        for e in read_ndjson(f) {
+            if let Some(v) = replay_event(&e) {
+                out.emit(&v);
             }
         }
     }
